@@ -134,16 +134,41 @@ def r2(db, rep):
                           "stay in the interval set" % newv)
 
 
-def r4(db, rep):
+def piece_loop(db):
+    """where the per-piece loop `while (range.has_next())` of SACK processing lives: (process_sack, node of process_sack at
+    which the loop is entered, function that contains the loop, the loop).  The loop may sit in process_sack itself or in a
+    member it calls that runs it unconditionally."""
     f = fn(db, AT + "::process_sack(")
+
+    def loops_of(h):
+        return [n for n in facts.fn_nodes(h) if n["k"] == "WhileStmt" and
+                "has_next" in facts.expr_str(n["c"][0] if len(n["c"]) == 2 else n["c"][1])]
+    own = loops_of(f)
+    if own:
+        lp = own[0]
+        return f, (lp["c"][0] if len(lp["c"]) == 2 else lp["c"][1]), f, lp
+    for c in facts.fn_nodes(f):
+        if c["k"] == "CXXMemberCallExpr" and c.get("callee"):
+            h = db.fn(c["callee"])
+            if h is not None and h.get("body") and h.get("rec") == f.get("rec") and h is not f and loops_of(h):
+                lp = loops_of(h)[0]
+                gh = cfg.FnCFG(h)
+                lc = lp["c"][0] if len(lp["c"]) == 2 else lp["c"][1]
+                if gh.reaches_exit_avoiding((gh.entry, -1), [gh.pos(lc)], normal_only=True) is None:
+                    return f, c, h, lp
+    return f, None, None, None
+
+
+def r4(db, rep):
+    f, site, lf, lp_ = piece_loop(db)
     g = cfg.FnCFG(f)
-    decl = [n for n in facts.fn_nodes(f) if n["k"] == "VarDecl" and n.get("name") == "range"]
-    loops = [n for n in facts.fn_nodes(f) if n["k"] == "WhileStmt" and "has_next" in facts.expr_str(n["c"][0] if len(n["c"]) == 2 else n["c"][1])]
+    decl = [n for n in facts.fn_nodes(f) if n["k"] == "VarDecl" and "AckedRange" in ((facts.tyi(f, n.get("t")) or {}).get("name") or "")]
+    loops = [site] if site is not None else []
     if not decl or not loops:
         rep.violation("R4-no-skip", "process_sack", facts.loc(f), "cannot find the per-block range / the piece loop")
         return
     D = g.pos(decl[0])
-    L = g.pos(loops[0]["c"][0] if len(loops[0]["c"]) == 2 else loops[0]["c"][1])
+    L = g.pos(site)
     skip = set()
     for b in g.blocks.values():
         c = g.idx.get(b.get("cond")) if b.get("cond") is not None else None
@@ -170,7 +195,9 @@ def r4(db, rep):
 def r5(db, rep):
     """the recorded-vs-merged decision of process_sack, evaluated for pieces that start d >= 1 above the ACK"""
     from vlib import ieval
-    f = fn(db, AT + "::process_sack(")
+    _, _site, f, _lp = piece_loop(db)
+    if f is None:
+        f = fn(db, AT + "::process_sack(")
     key = "process_sack:piece-branch"
     cand = None
     for n in facts.fn_nodes(f):
@@ -299,16 +326,22 @@ def r7(db, rep):
 
 def r8(db, rep):
     # (a) guards of the piece loop
-    f = fn(db, AT + "::process_sack(")
+    f, site, lf, lp_ = piece_loop(db)
     g = cfg.FnCFG(f)
-    loops = [n for n in facts.fn_nodes(f) if n["k"] == "WhileStmt" and "has_next" in facts.expr_str(n["c"][0] if len(n["c"]) == 2 else n["c"][1])]
+    loops = [lp_] if lp_ is not None else []
     key = "process_sack:piece-loop-guards"
     if not loops:
         rep.analysis_broken("process_sack: piece loop not found")
     else:
-        lc = loops[0]["c"][0] if len(loops[0]["c"]) == 2 else loops[0]["c"][1]
+        # what guards the entry of the loop: the guards of the site in process_sack, plus (for a loop that lives in a member
+        # process_sack calls) whatever that member tests before its loop
+        gfs = list(cond.guards_facts(g, g.pos(site)))
+        if lf is not f:
+            gl = cfg.FnCFG(lf)
+            lc_ = lp_["c"][0] if len(lp_["c"]) == 2 else lp_["c"][1]
+            gfs += [x for x in cond.guards_facts(gl, gl.pos(lc_)) if "has_next" not in facts.expr_str(x[1])]
         bad = None
-        for op, l, r in cond.guards_facts(g, g.pos(lc)):
+        for op, l, r in gfs:
             l, r = facts.inline_locals(f, l), (facts.inline_locals(f, r) if r is not None else None)      # named locals read through
             t = facts.expr_str(l) + " " + op + " " + (facts.expr_str(r) if r is not None else "")
             ok = False
